@@ -58,6 +58,25 @@ TieExplained(t, n) ==
      n \in DOMAIN FullSets(t)[a] /\ n \in DOMAIN FullSets(t)[b] /\ TieFlags(FullSets(t)[a], n) # TieFlags(FullSets(t)[b], n)
 \* the signature is per glyph: EVERY glyph whose structure differs must itself have the closing tie in some masters only
 Known_C09_1(t) == BadGlyphs(t) # {} /\ \A n \in BadGlyphs(t) : TieExplained(t, n)
+(***************************************************************************)
+(* Known finding F-C09-2: a composite held by a SPARSE master whose        *)
+(* (flattened) component transform does not fit F2Dot14 (an entry beyond   *)
+(* +-2) while the sparse master lacks one of its bases.  The TrueType      *)
+(* glyph pen decomposes such a composite when the master is compiled --    *)
+(* in the full masters from the real bases, in the sparse master from the  *)
+(* EMPTY placeholders standing in for the missing bases: the glyph comes   *)
+(* out empty there and the masters disagree.                               *)
+(***************************************************************************)
+Ovf(g) == \E k \in 1..Len(g.comps) : \E e \in 1..4 : (IF g.comps[k].m[e] < 0 THEN -g.comps[k].m[e] ELSE g.comps[k].m[e]) > 2 * MS
+OverflowInSparse(t, n) ==
+  LET dgs == t.src[t.default] IN
+  /\ n \in DOMAIN dgs
+  /\ \E k \in 1..Len(t.src) : /\ t.sparse[k] /\ n \in DOMAIN t.src[k] /\ HasComps(t.src[k][n])
+                               /\ \E m \in Reach(dgs, n) \ {n} : m \notin DOMAIN t.src[k]
+  /\ (Ovf(dgs[n]) \/ Ovf(FlattenGlyph(dgs, n)))
+\* per glyph again: every glyph whose structure differs carries one of the two signatures, at least one of them this one
+Known_C09_2(t) == /\ BadGlyphs(t) # {} /\ \A n \in BadGlyphs(t) : TieExplained(t, n) \/ OverflowInSparse(t, n)
+                  /\ \E n \in BadGlyphs(t) : OverflowInSparse(t, n)
 
 (***************************************************************************)
 (* Per-glyph form of the same obligation for families that are NOT         *)
@@ -93,7 +112,8 @@ Init == i = 1
 Next == /\ i <= Len(Traces)
         /\ LET t == Traces[i]  cl == Clauses(t)  bad == {k \in 1..Len(cl) : ~cl[k][2]}
            IN PrintT(<<"VERDICT", t.tid, IF bad = {} THEN "none" ELSE cl[Min(bad)][1], "none",
-                       IF bad # {} /\ ~Has(t, "err") /\ Known_C09_1(t) THEN "F-C09-1" ELSE "none">>)
+                       IF bad # {} /\ ~Has(t, "err") /\ Known_C09_1(t) THEN "F-C09-1"
+                       ELSE IF bad # {} /\ ~Has(t, "err") /\ Known_C09_2(t) THEN "F-C09-2" ELSE "none">>)
         /\ i' = i + 1
 Spec == Init /\ [][Next]_i
 =============================================================================
